@@ -46,6 +46,17 @@ def handle (fn : String) : Handler := fun a _impl =>
       let okScale := want.toBits.toNat = pNat s1
       some (model, relSpec "ok" (okLevel ∧ okPhase ∧ okScale) s!"level={decide okLevel} phase={okPhase} scale={decide okScale}")
     | _, _ => some (model, "ERR:refused")
+  -- NTT-form plaintext to a target level: `plain_switch_to <valid> <ntt> <cur> <tgt> <n> <kc by chain index> <data>` => `<level>:<data>`
+  -- model: the plan of `mod_switch_plain_to_inplace` (the generated code equals it: GenEval3) run with `plainWalkData`;
+  -- spec (definition): the same polynomial modulo the target's primes = the first n·kc(tgt) words, on level tgt
+  | "plain_switch_to", [valid, ntt, cur, tgt, n, kcs, data] =>
+    let valid := valid == "1"; let ntt := ntt == "1"
+    let cur := pNat cur; let tgt := pNat tgt; let n := pNat n
+    let kcl := pList kcs; let d := pList data
+    let kc := fun i => kcl.getD i 0
+    let model := fR (fun (st : List Nat) => s!"{st.getLastD cur}:{fList (plainWalkData kc n d st)}") (plainSwitchToPlan valid ntt cur tgt)
+    let spec := if !ntt ∨ cur < tgt ∨ (cur ≠ tgt ∧ !valid) then "ERR:refused" else s!"{tgt}:{fList (d.take (n * kc tgt))}"
+    some (model, spec)
   | _, _ => none
 
 end Drv.C05
